@@ -18,8 +18,10 @@ func convertHasExpression(stmt *gripql.HasExpression, not bool) bson.M {
 		case gripql.Condition_INSIDE:
 			val := cond.Value.AsInterface()
 			lims, ok := val.([]interface{})
-			if !ok {
+			if !ok || len(lims) != 2 {
+				// the core engine evaluates a malformed INSIDE condition to false
 				log.Error("unable to cast values from INSIDE statement")
+				output = constantFilter(not)
 			} else {
 				output = convertHasExpression(gripql.And(gripql.Gt(cond.Key, lims[0]), gripql.Lt(cond.Key, lims[1])), not)
 			}
@@ -27,8 +29,10 @@ func convertHasExpression(stmt *gripql.HasExpression, not bool) bson.M {
 		case gripql.Condition_OUTSIDE:
 			val := cond.Value.AsInterface()
 			lims, ok := val.([]interface{})
-			if !ok {
+			if !ok || len(lims) != 2 {
+				// the core engine evaluates a malformed OUTSIDE condition to false
 				log.Error("unable to cast values from OUTSIDE statement")
+				output = constantFilter(not)
 			} else {
 				output = convertHasExpression(gripql.Or(gripql.Lt(cond.Key, lims[0]), gripql.Gt(cond.Key, lims[1])), not)
 			}
@@ -36,8 +40,10 @@ func convertHasExpression(stmt *gripql.HasExpression, not bool) bson.M {
 		case gripql.Condition_BETWEEN:
 			val := cond.Value.AsInterface()
 			lims, ok := val.([]interface{})
-			if !ok {
+			if !ok || len(lims) != 2 {
+				// the core engine evaluates a malformed BETWEEN condition to false
 				log.Error("unable to cast values from BETWEEN statement")
+				output = constantFilter(not)
 			} else {
 				output = convertHasExpression(gripql.And(gripql.Gte(cond.Key, lims[0]), gripql.Lt(cond.Key, lims[1])), not)
 			}
@@ -56,6 +62,10 @@ func convertHasExpression(stmt *gripql.HasExpression, not bool) bson.M {
 		if not {
 			output = bson.M{"$or": andRes}
 		}
+		if len(andRes) == 0 {
+			// $and/$or refuse an empty array; an empty conjunction is true
+			output = constantFilter(!not)
+		}
 
 	case *gripql.HasExpression_Or:
 		or := stmt.GetOr()
@@ -67,9 +77,13 @@ func convertHasExpression(stmt *gripql.HasExpression, not bool) bson.M {
 		if not {
 			output = bson.M{"$and": orRes}
 		}
+		if len(orRes) == 0 {
+			// $and/$or refuse an empty array; an empty disjunction is false
+			output = constantFilter(not)
+		}
 
 	case *gripql.HasExpression_Not:
-		notRes := convertHasExpression(stmt.GetNot(), true)
+		notRes := convertHasExpression(stmt.GetNot(), !not)
 		output = notRes
 
 	default:
@@ -77,6 +91,15 @@ func convertHasExpression(stmt *gripql.HasExpression, not bool) bson.M {
 	}
 
 	return output
+}
+
+// constantFilter returns a filter that matches every document (value == true)
+// or no document (value == false).
+func constantFilter(value bool) bson.M {
+	if value {
+		return bson.M{}
+	}
+	return bson.M{"_id": bson.M{"$in": []interface{}{}}}
 }
 
 func convertPath(key string) string {
@@ -112,7 +135,8 @@ func convertCondition(cond *gripql.HasCondition, not bool) bson.M {
 	case gripql.Condition_WITHOUT:
 		expr = bson.M{"$not": bson.M{"$in": val}}
 	case gripql.Condition_CONTAINS:
-		expr = bson.M{"$in": []interface{}{val}}
+		// only a list that has val as a member; $in would also match a scalar equal to val
+		expr = bson.M{"$elemMatch": bson.M{"$eq": val}}
 	default:
 		log.Error("unknown where condition type")
 	}
